@@ -7,6 +7,7 @@ import (
 	"net/http"
 	"strings"
 	"sync"
+	"time"
 
 	mcp "trpc.group/trpc-go/trpc-mcp-go"
 )
@@ -49,10 +50,18 @@ func newRawPeer(c *Ctx, w *World, name string, skipInit bool) (*rawPeer, error) 
 		}
 		p.stream = rs
 		c.S.Quiesce()
-		for _, ev := range rs.WireEvents() {
-			if ev.Type == "endpoint" {
-				p.endpoint = ev.Data
+		// the endpoint event may be held up by the network (a partition that heals later): wait for
+		// it in simulated time like a real peer would, up to a minute
+		for i := 0; i < 1200; i++ {
+			for _, ev := range rs.WireEvents() {
+				if ev.Type == "endpoint" {
+					p.endpoint = ev.Data
+				}
 			}
+			if p.endpoint != "" || rs.Ended() {
+				break
+			}
+			c.S.Settle(50 * time.Millisecond)
 		}
 		if p.endpoint == "" {
 			return nil, fmt.Errorf("no endpoint event on the legacy stream")
